@@ -61,6 +61,7 @@ class SymSeq(object):
         self.overlays = list(overlays or [])   # [(iz3, value)] most recent last
         self.name = name
         self.prov = None
+        self.elem_token = None     # identity of the (mutable) element objects; shared by shallow copies
 
 
 class RangeV(object):
@@ -72,28 +73,54 @@ class RangeV(object):
 
 
 class NDArr(object):
-    """NumPy array / FCSData: shape (ints or z3 Int exprs), element function over z3 indices."""
+    """NumPy array / FCSData: shape (ints or z3 Int exprs), element function over z3 indices.
+
+    Contents are immutable function objects: a write replaces `_fn` of the owning buffer.  A view has no
+    contents of its own: `to_base` maps view indices to base indices, `from_base` maps a base index to
+    (in-image condition, view indices); reads and writes go to the base."""
 
     def __init__(self, shape, dtype, fn, cls='ndarray', attrs=None, name=None):
         self.shape = list(shape)
-        self.dtype = dtype          # 'bool' | 'int' | 'uint' | 'float' | 'object'
+        self.dtype = dtype          # 'bool' | 'int' | 'uint' | 'float' | 'object' | 'xfloat'
         self.bits = None            # for fixed-width unsigned ints
-        self.fn = fn                # fn(*z3 indices) -> z3 expr
+        self._fn = fn               # fn(*z3 indices) -> z3 expr
         self.cls = cls
         self.attrs = attrs if attrs is not None else {}
         self.name = name
         self.term = None            # how this array was produced, e.g. ('filter', base, mask)
         self.view_of = None
-        self.stale = False
+        self.to_base = None
+        self.from_base = None
         self.prov = None
         self.writeable = True
+
+    @property
+    def fn(self):
+        """current contents as a frozen function (later writes are not seen through the returned object)"""
+        if self.view_of is None:
+            return self._fn
+        bf = self.view_of.fn
+        tb = self.to_base
+        return lambda *idx, bf=bf, tb=tb: bf(*tb(*idx))
+
+    @fn.setter
+    def fn(self, f):
+        if self.view_of is not None:
+            raise RuntimeError('internal: direct store into a view')
+        self._fn = f
+
+    def root(self):
+        a = self
+        while a.view_of is not None:
+            a = a.view_of
+        return a
 
     @property
     def ndim(self):
         return len(self.shape)
 
     def __repr__(self):
-        return 'NDArr<%s %s %s>' % (self.cls, self.dtype, self.shape)
+        return 'NDArr<%s %s %s%s>' % (self.cls, self.dtype, self.shape, ' view' if self.view_of is not None else '')
 
 
 class PDict(object):
@@ -271,3 +298,12 @@ class Poison(object):
 
     def __init__(self, why):
         self.why = why
+
+
+class OptVal(object):
+    """Deferred optional: None when `isnone` holds, else `val`.  Forced (by a branch) only when inspected,
+    so that moving it between containers does not fork the path."""
+
+    def __init__(self, isnone, val):
+        self.isnone = isnone
+        self.val = val
